@@ -3,15 +3,15 @@ package main
 // C16: announce traversals against a simulated network at the Conn boundary.
 
 import (
-	"sync/atomic"
-	"runtime"
 	"bytes"
 	"fmt"
 	"math/rand"
 	"net"
+	"runtime"
 	"sort"
 	"strings"
 	"sync"
+	"sync/atomic"
 	"time"
 
 	dht "github.com/anacrolix/dht/v2"
@@ -20,13 +20,13 @@ import (
 func init() { commands["C16"] = runC16 }
 
 type simNode struct {
-	addr    *net.UDPAddr
-	id      [20]byte
-	mode    int // 0 token, 1 no token, 2 values+token, 3 error, 4 silent
-	token   []byte
-	nbrs    []*simNode
-	asked   bool
-	gotAnn  []annObs
+	addr   *net.UDPAddr
+	id     [20]byte
+	mode   int // 0 token, 1 no token, 2 values+token, 3 error, 4 silent
+	token  []byte
+	nbrs   []*simNode
+	asked  bool
+	gotAnn []annObs
 }
 
 type annObs struct {
